@@ -133,7 +133,8 @@ class SvsInst:
             if rsv_id == self.self_node_id and rsv_seq > self.self_seq:
                 self.logger.error('Remote side has more local data for local node.')
                 return
-            rsv_dict[rsv_id] = rsv_seq
+            # A vector may list a node more than once: the entry-wise maximum counts, not the last entry
+            rsv_dict[rsv_id] = max(rsv_dict.get(rsv_id, 0), rsv_seq)
 
         need_notif = len(rsv_dict.keys() - self.local_sv.keys()) > 0
         need_fetch = False
